@@ -263,5 +263,39 @@ def c19_3(ctx: Ctx) -> RuleResult:
             if isinstance(call.func, ast.Attribute) and call.func.attr in ("update", "pop", "clear", "setdefault", "popitem") and reg in ast.unparse(call.func.value):
                 ok = m.name in ("__init__", "add_plugin")
                 res.add(m, call, "only __init__ and add_plugin mutate the registry", ok, "" if ok else "lookups must not modify the registry", construct=f"{m.name}: mutate registry")
+    # the registry is the manager's only state, and lookups never write anything
+    fields_written = {}
+    for m in c.methods.values():
+        if not m.positional:
+            continue
+        selfn = m.positional[0]
+        for n in ast.walk(m.node):
+            targets = []
+            if isinstance(n, ast.Assign):
+                targets = n.targets
+            elif isinstance(n, (ast.AugAssign, ast.AnnAssign)):
+                targets = [n.target] if getattr(n, "value", None) is not None or isinstance(n, ast.AugAssign) else []
+            elif isinstance(n, ast.Delete):
+                targets = n.targets
+            for t in targets:
+                base = t
+                while isinstance(base, (ast.Subscript, ast.Attribute)) and not (isinstance(base, ast.Attribute) and isinstance(base.value, ast.Name) and base.value.id == selfn):
+                    base = base.value
+                if isinstance(base, ast.Attribute) and isinstance(base.value, ast.Name) and base.value.id == selfn:
+                    fields_written.setdefault(base.attr, []).append((m, n))
+            if isinstance(n, ast.Call) and isinstance(n.func, ast.Attribute) and n.func.attr in ("update", "pop", "clear", "setdefault", "popitem", "append", "add", "remove", "insert", "extend"):
+                base = n.func.value
+                while isinstance(base, (ast.Subscript, ast.Attribute)) and not (isinstance(base, ast.Attribute) and isinstance(base.value, ast.Name) and base.value.id == selfn):
+                    base = base.value
+                if isinstance(base, ast.Attribute) and isinstance(base.value, ast.Name) and base.value.id == selfn:
+                    fields_written.setdefault(base.attr, []).append((m, n))
+    for fld, sites in sorted(fields_written.items()):
+        for m, n in sites:
+            ok = m.name in ("__init__", "add_plugin") and fld == reg
+            if m.name == "__init__" and fld != reg:
+                ok = False
+            res.add(m, n, "the manager keeps no state besides the registry, written only by __init__ / add_plugin (lookups are side-effect free)", ok,
+                    "" if ok else f"`{m.name}` writes `self.{fld}`: lookups depend on (and change) hidden state, so the same request can resolve differently after registrations",
+                    construct=f"{m.name}: writes self.{fld}")
     res.floor = 5
     return res
